@@ -49,7 +49,7 @@ PROBES = ["transient_listing_fault", "output_dir_reused", "op_run", "op_run_file
           "listing_key_changed", "world_of_interest_first", "world_of_interest_last", "world_of_interest_middle",
           "default_prefix", "explicit_prefix", "repeat_same_world_ge_3", "companion_hashseed_differs"]
 
-LOCS = ["la", "lb/deep", "lc/x/y"]
+LOCS = ["la", "lb/deep", "lc/x/y", "proj0/co"]      # the last one: an ancestor named like world 0's input directory
 COMPANION_HASHSEED = "98765"
 _companion = None
 
